@@ -25,11 +25,11 @@ pub struct PairAgent {
     c: CommandLane<Act>,
     /// a lane whose value can have the empty encoding (`None`); it starts at `Some(7)` so that
     /// "nothing stored" and "the empty value stored" are different states
-    /// (external names `o` and `om`, different from the field names the lifecycle is labelled with)
+    /// (external names `o` and `O` - equal up to case, so a store that folds names would alias them - and different from the field names the lifecycle is labelled with)
     #[item(name = "o")]
     opt_lane: ValueLane<Option<i32>>,
     /// a map lane whose values can have the empty encoding
-    #[item(name = "om")]
+    #[item(name = "O")]
     opt_map: MapLane<i32, Option<i32>>,
 }
 
